@@ -139,7 +139,9 @@ REG.contract(
               "Linear2StageBattery._transition_soc", "Linear2StageBattery.charge_calculation"],
     ensures=[C("C03.init_establishes_inv", lambda old, new, ret: [
         l2_inv(new.self), Eq(new.self._current_charge, old.init_charge), Eq(new.self._init_charge, old.init_charge),
-        Eq(new.self._transition_soc, old.transition_soc), Eq(new.self.charge_calculation, old.charge_calculation)])],
+        Eq(new.self._transition_soc, old.transition_soc), Eq(new.self.charge_calculation, old.charge_calculation),
+        Eq(new.self._capacity, old.capacity), Eq(new.self._max_power, old.max_power), Eq(new.self._noise_level, old.noise_level),
+        Eq(new.self._current_charging_power, 0)])],
 )
 
 REG.contract(
